@@ -494,16 +494,35 @@ func (t *Table) Put(input *types.PutItemInput) (map[string]*types.Item, error) {
 		}
 	}
 
+	// every index key is derived before anything is written, so that a failing one leaves no trace
+	indexKeys, err := t.indexKeys(item)
+	if err != nil {
+		return nil, types.NewError("ValidationException", err.Error(), nil)
+	}
+
 	t.setItem(key, item)
 
-	for _, index := range t.Indexes {
-		err := index.putData(key, item)
-		if err != nil {
-			return nil, types.NewError("ValidationException", err.Error(), nil)
-		}
+	for name, index := range t.Indexes {
+		index.set(key, indexKeys[name])
 	}
 
 	return item, nil
+}
+
+// indexKeys derives the key of the item in every secondary index ("" when the item is not part of it)
+func (t *Table) indexKeys(item map[string]*types.Item) (map[string]string, error) {
+	keys := make(map[string]string, len(t.Indexes))
+
+	for name, index := range t.Indexes {
+		indexKey, err := index.keySchema.GetKey(t.AttributesDef, item)
+		if err != nil {
+			return nil, err
+		}
+
+		keys[name] = indexKey
+	}
+
+	return keys, nil
 }
 
 func (t *Table) interpreterUpdate(input interpreter.UpdateInput) error {
@@ -553,9 +572,10 @@ func (t *Table) Update(input *types.UpdateItemInput) (map[string]*types.Item, er
 	if !ok {
 		// types creates a new item when the item does not exists
 		item = copyItem(input.Key)
+	} else {
+		// the expression is applied to a copy, the stored item only changes once every step has succeeded
+		item = copyItem(item)
 	}
-
-	oldItem := copyItem(item)
 
 	err = t.interpreterUpdate(interpreter.UpdateInput{
 		TableName:  t.Name,
@@ -568,14 +588,16 @@ func (t *Table) Update(input *types.UpdateItemInput) (map[string]*types.Item, er
 		return nil, err
 	}
 
+	indexKeys, err := t.indexKeys(item)
+	if err != nil {
+		return nil, types.NewError("ValidationException", err.Error(), nil)
+	}
+
 	t.setItem(key, item)
 
 	// update secondary Indexes
-	for _, index := range t.Indexes {
-		err := index.updateData(key, item, oldItem)
-		if err != nil {
-			return nil, types.NewError("ValidationException", err.Error(), nil)
-		}
+	for name, index := range t.Indexes {
+		index.set(key, indexKeys[name])
 	}
 
 	return copyItem(item), nil
@@ -610,10 +632,7 @@ func (t *Table) Delete(input *types.DeleteItemInput) (map[string]*types.Item, er
 	t.SortedKeys = t.SortedKeys[:len(t.SortedKeys)-1]
 
 	for _, index := range t.Indexes {
-		err := index.delete(key, item)
-		if err != nil {
-			return nil, types.NewError("ValidationException", err.Error(), nil)
-		}
+		index.set(key, "")
 	}
 
 	return item, nil
